@@ -224,3 +224,13 @@ VARIANTS += [
       "{o: int(data[v]) for o, v in self.__bin_bounds}",
       "{o: int(data[v], 10) for o, v in self.__bin_bounds}", "silent"),
 ]
+
+VARIANTS += [
+    V("stats-row-bounds-in-record-order", S,
+      "            for bb in self.__bin_bounds:\n"
+      "                yield (repr(data.bin_bounds[bb])\n"
+      "                       if bb in data.bin_bounds else \"\")",
+      "            for bb in data.bin_bounds:\n"
+      "                yield repr(data.bin_bounds[bb])", "fire", "D19.1",
+      "seed C19-stats-row-bounds-in-record-order"),
+]
